@@ -433,7 +433,7 @@ inductive KeyCh (s s' : State) (ev : Ev) (k : Nat) : Prop where
   /-- the worker executes a `Delete` of this key -/
   | workerDelete (h : Option Nat) (q : List (Cmd × Option Nat)) :
       ev = .worker → s.worker = .running → s.queue = (.delete k, h) :: q → s'.store.get? k = none → KeyCh s s' ev k
-  /-- the worker admits a put that does not fit: memory pressure evicts the key -/
+  /-- the worker executes a put that does not fit: memory pressure evicts the key -/
   | evicted (id hash : Nat) (w : Int) (k' v : Nat) (h : Option Nat) (q : List (Cmd × Option Nat)) :
       ev = .worker → s.worker = .running →
       (s.queue = (.put id hash w k' v, h) :: q ∨ ∃ t, s.queue = (.putTtl id hash w k' v t, h) :: q) →
@@ -465,7 +465,7 @@ theorem foldl_applyEvict_now (evs : List Evicted) : ∀ s : State, (evs.foldl ap
     rw [ih]
     exact (applyEvict_frame s e).2.2.2.2.2.2.1
 
-/-- a put that fits (and is not heavier than the whole cache) is admitted at once, nothing is evicted -/
+/-- a put that fits (and is not heavier than the whole cache) is accepted at once, nothing is evicted -/
 theorem maybeAdd_fits (t : TinyLFU) (size : Nat) (a : Adm) (id key hash : Nat) (w : Int) (o : Oracle)
     (h1 : w ≤ a.max) (h2 : w ≤ a.max - a.used) :
     maybeAdd t size a id key hash w o = .ok { status := .accepted, adm := a.add id key hash w, oracle := o } := by
